@@ -553,6 +553,29 @@ fn overlay_step(cx: &Ctx, s: &Settings, doc: &Doc, use_toml: bool, out: &mut Out
                 out.class(format!("update_from_str|{}|{shape}|{vclass}|err-receiver-unchanged", cx.base_name));
                 out.bump("atomicity_checks_on_failed_update_from_str");
             }
+            // the legacy thread-local form of the same update (Settings::from_string, which the C API's
+            // c2pa_load_settings uses): on a fresh thread, a refused document must leave the
+            // thread-local settings as they were
+            let (t2, f2) = (text.clone(), fmt.to_string());
+            let r = std::thread::spawn(move || {
+                let before = thread_local_snapshot();
+                #[allow(deprecated)]
+                let r = report::catch_sdk(|| Settings::from_string(&t2, &f2).map(|_| ()).map_err(|e| e.to_string()));
+                (before, r, thread_local_snapshot())
+            })
+            .join();
+            if let Ok((before, r, after)) = r {
+                out.evals += 1;
+                match r {
+                    Err(p) => out.violation(format!("legacy-from_string|{shape}|{vclass}|panic"), format!("panic: {p}"), wit(json!(null))),
+                    Ok(Err(e)) if before != after => out.violation(format!("legacy-from_string|{shape}|{vclass}|not-atomic"), format!("Settings::from_string failed ({e}) but changed the thread-local settings"), wit(json!({"before": before, "after": after}))),
+                    Ok(Err(_)) => {
+                        out.class(format!("legacy-from_string|{shape}|{vclass}|err-thread-local-unchanged"));
+                        out.bump("atomicity_checks_on_failed_legacy_from_string");
+                    }
+                    Ok(Ok(())) => out.bump("legacy_from_string_accepts_on_defaults"),
+                }
+            }
         }
     }
     // --- the other format
